@@ -316,7 +316,12 @@ UNIT = Unit(
     properties=["C11"],
     prelude=["time", "atomics", "tabs", "est_opaque", "sfmt"],
     rlimit=100,
-    trusted=[],
+    trusted=[
+        "prelude/sfmt.rs (R7b): what core::fmt prints for a value under a flag set is the text function of that value type; writes into a String cannot fail",
+        "std String operations (push, push_str, clear, replace of NUL, split at newlines, trim_end, byte length additive) as first-order helpers with the contracts shown in the unit",
+        "a custom ProgressTracker writes only through the writer it is given; the map of custom keys is an opaque lookup",
+        "getters fraction / per_sec / elapsed / eta / duration are opaque values of the state here (decided in C07 / C09 units); format_bar enters through its contract (c13_format_bar)",
+    ],
     items=[
         Decl("src/state.rs", "enum", "TabExpandedString", rewrites=[T.COW]),
         Raw(T.TES_SPEC),
